@@ -76,7 +76,7 @@ func TestCheck(t *testing.T) {
 		c.Rule("PART A (E1): every (initial, multiplier, T5) in {1ms,100ms,1s,T5,2*T5} x {1,1.5,2,10,1e9,+Inf} x {1ms,1s,10s,1h} x 0..12 consecutive failures: the real nextBackoffDelay driven exactly like connectLoop (sleep=min(delay,T5); delay=next(delay)) gives sleeps that start at min(initial,T5), never decrease and never exceed T5 (agreement with the documented growth rule wait(k)=min(wait(k-1)*multiplier,T5) is recorded in the evidence, not demanded: the property does not fix the curve). " +
 			"PART B (E2 fault enumeration, real hsmsss connection in a synctest bubble over the sim network, roles active and passive, timer set 0: T3=3s T5=4s T6=2s T7=5s T8=1s write-timeout=1.5s linktest=7s/threshold 1; thorough also timer set 1: T3=2.5s T6=3s T7=6s T8=2s write-timeout=0.7s linktest=9s): a canonical session (TCP up, select, library primary+peer reply, peer primary+handler reply, peer Linktest.req+rsp) is cut right after EVERY byte offset k of the peer->library stream and of the library->peer stream (cut inside the library's Write call) by each fault in {peer close, peer reset, stall = peer stops reading and sending, mute = peer keeps reading but never sends again (outbound: at frame ends only)}; then the network refuses r dials / fails r listens (quick r in {0,2}, thorough r in {0,1,2,5}) before it lets the library back in; every outbound stall additionally with the application's send carrying a 500 ms context deadline (shorter than the write timeout: the caller giving up does not change when the link is given up); backoff configurations (initial x multiplier, T5=4s): quick (100ms x2) r in {0,2} + (1s x3) r=2, timer set 0; thorough all three incl. (6s x1.5) x r in {0,1,2,5} x both timer sets. " +
 			"Oracle per execution: the library closes the dead socket exactly when the reference says (close/reset/rejection: at once; stall: T8 after the last byte of a begun frame / write timeout for a blocked write / T6 for an unanswered Select.req / T7 for an unselected passive link / linktest interval after the last frame + write timeout (stalled) or + T6 (mute) otherwise); the first dial/listen attempt comes exactly min(initial,T5) after the socket was closed, the delays before later attempts never decrease and never exceed T5 (agreement with the documented growth rule is recorded, not demanded); Reconnecting()>0 and Reconnects() unchanged at every attempt of the loop; then a fresh select and a data round trip in both directions succeed on the new link; then the peer goes silent (mute epilogue): the recovered session's own linktest must give the link up within interval + T6 + write timeout + 1 s (passive: on a NEW listener), State()==Selected, Reconnecting()==0, Reconnects()==number of successful re-dials (active); after Close 10*T5 pass without any dial/listen and without a live listener. " +
-			"The same cut positions x faults on the SECOND link (kind fault2: the first link of a Selected session is closed by the peer, re-established, and the canonical session replayed on it with the cut; Reconnects()==2 at the end): quick (100ms x2) r=2; thorough all three backoff configurations x r in {0,2} x both timer sets. Long outages: peer close of the idle session followed by 70 refused attempts in a row x backoff (100ms x2), (1s x10), (5ms x4) x roles: same oracle (the delays never decrease and never exceed T5 although the multiplied-on delay leaves the int64 range after 38 / 10 / 21 failures). Special scenarios x roles x r: Select.rsp status {2,3,4,255} (active), mute peer (linktest T6), T7 on the active side (T6>T7), cold start under OpenBackground (retries follow the backoff, Reconnects stays 0) on a fresh connection object and again after 1 and 2 complete open ... Close cycles of the same object, two drops in a row (each loop restarts at initial, Reconnects==2), Close in the middle of a backoff sleep after {0,1,2} failed attempts with the network refusing or accepting afterwards. non-trivial = every part B execution and every part A case with >= 1 failure")
+			"The same cut positions x faults on the SECOND link (kind fault2: the first link of a Selected session is closed by the peer, re-established, and the canonical session replayed on it with the cut; Reconnects()==2 at the end): quick (100ms x2) r=2; thorough all three backoff configurations x r in {0,2} x both timer sets. Long outages: peer close of the idle session followed by 70 refused attempts in a row x backoff (100ms x2), (1s x10), (5ms x4) x roles: same oracle (the delays never decrease and never exceed T5 although the multiplied-on delay leaves the int64 range after 38 / 10 / 21 failures). Special scenarios x roles x r: Select.rsp status {2,3,4,255} (active), mute peer (linktest T6), mute peer after a Deselect.req / 1.5 linktest intervals deselected / Select.req on the same connection (own timer set: interval 4 s, T7 12 s), T7 on the active side (T6>T7), cold start under OpenBackground (retries follow the backoff, Reconnects stays 0) on a fresh connection object and again after 1 and 2 complete open ... Close cycles of the same object, two drops in a row (each loop restarts at initial, Reconnects==2), Close in the middle of a backoff sleep after {0,1,2} failed attempts with the network refusing or accepting afterwards. non-trivial = every part B execution and every part A case with >= 1 failure")
 		c.Assume("testing/synctest virtual time and durable-blocking detection", "sim in-memory network; the library's socket is wrapped so that a fault lands on an exact outbound byte", "failed dials/listens fail at once (no connect latency)", "reference backoff written from the WithReconnectBackoff/WithT5 documentation (ref/backoff)", "which timer covers a stall is derived from SEMI E37 timer definitions and the documented linktest/write-timeout options")
 		if c.Replay != nil {
 			var k struct {
@@ -151,6 +151,7 @@ func TestCheck(t *testing.T) {
 					// special scenarios first (simplest)
 					var sp []caseSpec
 					sp = append(sp, caseSpec{Kind: "mute", Active: active}, caseSpec{Kind: "double", Active: active})
+
 					if active {
 						for _, st := range []int{2, 3, 4, 255} {
 							sp = append(sp, caseSpec{Kind: "select-reject", Active: true, Arg: st})
@@ -166,6 +167,12 @@ func TestCheck(t *testing.T) {
 						cs.Refusals, cs.Cfg, cs.TS = r, pl.cfg, pl.ts
 						states++
 						if !do(cs) {
+							return
+						}
+					}
+					if pl.ts == 0 { // its own timer set (linktest interval 4 s < T7 12 s)
+						states++
+						if !do(caseSpec{Kind: "resel-mute", Active: active, Refusals: r, Cfg: pl.cfg, TS: 2}) {
 							return
 						}
 					}
